@@ -53,7 +53,26 @@ async fn listen_inner(
     let manager = Arc::new(SessionManager::default());
     let timeout = context.settings.connection_establishment_timeout;
     loop {
-        match tokio::time::timeout(timeout, codec.listen()).await {
+        // `listen()` is not cancellation safe (a future dropped in the middle of a write loses
+        // the rest of the chunk being written), so the same future is polled again after
+        // a timeout which is ignored because of the requests still in progress
+        let result = {
+            let listen = codec.listen();
+            tokio::pin!(listen);
+            loop {
+                match tokio::time::timeout(timeout, listen.as_mut()).await {
+                    Err(_elapsed) if manager.active_streams_num.load(Ordering::Acquire) > 0 => {
+                        log_id!(
+                            trace,
+                            log_id,
+                            "Ignoring timeout due to there are some active streams"
+                        )
+                    }
+                    x => break x,
+                }
+            }
+        };
+        match result {
             Ok(Ok(Some(x))) => {
                 tokio::spawn({
                     let context = context.clone();
@@ -82,11 +101,6 @@ async fn listen_inner(
                 log_id!(debug, log_id, "Session error: {}", e);
                 break;
             }
-            Err(_elapsed) if manager.active_streams_num.load(Ordering::Acquire) > 0 => log_id!(
-                trace,
-                log_id,
-                "Ignoring timeout due to there are some active streams"
-            ),
             Err(_elapsed) => {
                 log_id!(debug, log_id, "Closing due to timeout");
                 if let Err(e) = codec.graceful_shutdown().await {
